@@ -565,6 +565,19 @@ def rule_map_discovery(c, R, F, inline_value):
     axioms = [BF.disj([BF.neg(IN), PL])]  # the inline marker extends the plain one (WRITER-READER/prefix)
     receivers = []
 
+    data_value = inline_value[len(plain_value):]
+
+    def after_plain(top, x):
+        """is x `<line>.substring(<plain marker>.length)` (through constants)? -> the line, else None"""
+        x = JF.unparen(x)
+        r_ = F.resolve_const(top)
+        for _ in range(3):
+            if x.get("type") == "Identifier" and r_(x["value"]) is not None:
+                x = JF.unparen(r_(x["value"]))
+        if x.get("type") == "CallExpression" and _callee(x).get("type") == "MemberExpression" and _callee(x)["property"].get("value") in ("substring", "slice", "substr") and len(args(x)) == 1 and _marker_len(F, args(x)[0]) == plain_value:
+            return _callee(x)["object"]
+        return None
+
     def atomize(e, top):
         s = _starts_test(F, e)
         if s is not None:
@@ -575,6 +588,12 @@ def rule_map_discovery(c, R, F, inline_value):
             if val == plain_value:
                 receivers.append((recv, top, e))
                 return PL
+            if val == data_value and data_value:
+                # the data-URL prefix tested on what follows the plain marker: the line starts with both
+                line = after_plain(top, recv)
+                if line is not None:
+                    receivers.append((line, top, e))
+                    return IN
         return None
 
     reach = Reach(F, atomize)
@@ -592,8 +611,15 @@ def rule_map_discovery(c, R, F, inline_value):
         if a0.get("type") == "Identifier" and r(a0["value"]) is not None:
             a0 = JF.unparen(r(a0["value"]))
     okd = a0.get("type") == "CallExpression" and _callee(a0).get("type") == "MemberExpression" and _callee(a0)["property"].get("value") in ("substring", "slice", "substr") and len(args(a0)) == 1 and _marker_len(F, args(a0)[0]) == inline_value
+    if not okd and data_value and a0.get("type") == "CallExpression" and _callee(a0).get("type") == "MemberExpression" and _callee(a0)["property"].get("value") in ("substring", "slice", "substr") and len(args(a0)) == 1 and _marker_len(F, args(a0)[0]) == data_value:
+        # in two steps: what follows the plain marker, then what follows the data-URL prefix in that
+        line_ = after_plain(top, _callee(a0)["object"])
+        if line_ is not None:
+            okd = True
+            receivers.append((line_, top, a0))
+            a0 = {"type": "CallExpression", "callee": {"type": "MemberExpression", "object": line_, "property": {"type": "Identifier", "value": "substring"}}, "arguments": []}
     c.expect(bool(okd), R, R + "/inline-payload", where, "decodes the last line after the inline marker", "the decoded text is %s, not the last line after the inline marker" % JF.text(a0)[:80])
-    if okd:
+    if okd and a0.get("arguments") != []:
         receivers.append((_callee(a0)["object"], top, a0))
     # ... and read as UTF-8 (the Rust side writes the map as UTF-8 JSON; source names are not ASCII only)
     par = F.parent(F.parent(dec[0])) if F.parent(dec[0]) is not None else None
@@ -661,7 +687,14 @@ def rule_map_discovery(c, R, F, inline_value):
                     raw = jsast.ident_name(n["left"])
     c.floor(R, "SourceMap constructions", len(news), 1)
     if news and raw:
-        expect_gate(c, R, R + "/construct", jf.loc(news[0]), reach.any_of(news), BF.atom("t:" + raw), "the SourceMap is constructed", axioms)
+        # a variable that starts out undefined is truthy only where it was assigned: whatever guards all of
+        # its assignments is implied by it (an early `return` for "no marker at all" adds nothing to the gate)
+        ax2 = list(axioms)
+        kind_, init_, nass_ = F.binding(top, raw)
+        if init_ is None and nass_:
+            asg = [x for x in jsast.walk(top) if x.get("type") == "AssignmentExpression" and jsast.ident_name(x["left"]) == raw]
+            ax2.append(BF.disj([BF.neg(BF.atom("t:" + raw)), reach.any_of(asg)]))
+        expect_gate(c, R, R + "/construct", jf.loc(news[0]), reach.any_of(news), BF.atom("t:" + raw), "the SourceMap is constructed", ax2)
         for n in news:
             ids = [x["value"] for x in jsast.walk({"a": n.get("arguments")}) if x.get("type") == "Identifier" and x["value"] not in ("JSON", "parse")]
             c.expect(ids == [raw], R, R + "/construct-arg", jf.loc(n), "constructed from the raw map text", "constructed from %s" % ids)
@@ -747,8 +780,16 @@ def rule_lookup(c, R, F):
                 r = F.resolve_const(top)
                 if d.get("type") == "Identifier" and r(d["value"]) is not None:
                     d = JF.unparen(r(d["value"]))
-                okj = d.get("type") == "CallExpression" and len(args(d)) == 1 and jsast.ident_name(args(d)[0]) == F.params(top)[1] and (chain(d) == ["path", "dirname"] or (len(chain(d)) == 1 and _is_dirname_helper(F, chain(d)[0])))
+                file_arg = (jsast.ident_name(args(d)[0]) or JF.text(args(d)[0])) if d.get("type") == "CallExpression" and len(args(d)) == 1 else None
+                file_ok = file_arg is not None and (file_arg == F.params(top)[1] if len(F.params(top)) >= 4 else file_arg == "%s.path" % F.params(top)[1])
+                okj = d.get("type") == "CallExpression" and len(args(d)) == 1 and file_ok and (chain(d) == ["path", "dirname"] or (len(chain(d)) == 1 and _is_dirname_helper(F, chain(d)[0])))
         c.expect(okj, R, R + "/lookup-path", jf.loc(n), "path = directory of the file + originalSource", "the reported path is not the original source joined to the directory of the file name")
+        # ... and it is handed back whenever the map was consulted: a test of the entry's fields on the way
+        # (`originalLine &&`) turns away line 0 / column 0 / the empty source - positions that exist
+        for j in joins:
+            a = args(j)
+            if len(a) == 2 and jsast.ident_name(a[1]) == "originalSource":
+                expect_gate(c, R, R + "/lookup-result", jf.loc(j), reach.of(j), BF.atom("t:" + recv), "the translated position is handed back")
 
 
 def rule_original_cache(c, R, F):
@@ -824,7 +865,21 @@ def rule_original_cache(c, R, F):
     c.floor(R, "translations through the original map", len(tr), 1)
     for n in tr:
         a = [jsast.ident_name(x) for x in args(n)]
-        c.expect(a[1:] == ps[:3] and a[0] is not None and a[0] not in ps, R, R + "/original/translate-args", jf.loc(n), "getPathAndLine(map, filename, line, column)", "getPathAndLine is called with %s" % a)
+        okt_ = a[1:] == ps[:3]
+        if not okt_ and len(args(n)) == 2:
+            # the position handed on as one location object { path, line, column } (a literal or a constant holding it)
+            o_ = JF.unparen(args(n)[1])
+            if o_.get("type") == "Identifier" and F.resolve_const(entry)(o_["value"]) is not None:
+                o_ = JF.unparen(F.resolve_const(entry)(o_["value"]))
+            if o_.get("type") == "ObjectExpression":
+                d_ = {}
+                for p_ in o_.get("properties", []):
+                    if p_.get("type") == "Identifier":
+                        d_[p_["value"]] = p_["value"]
+                    elif p_.get("type") == "KeyValueProperty":
+                        d_[p_["key"]["value"]] = jsast.ident_name(p_["value"])
+                okt_ = d_ == dict(zip(("path", "line", "column"), ps[:3]))
+        c.expect(okt_ and a[0] is not None and a[0] not in ps, R, R + "/original/translate-args", jf.loc(n), "getPathAndLine(map, filename, line, column)", "getPathAndLine is called with %s" % a)
 
 
 def rule_stack(c, R, F):
@@ -1036,6 +1091,20 @@ def rule_stack(c, R, F):
             a = JF.unparen(a)
             if a.get("type") == "TemplateLiteral":
                 return [jsast.ident_name(JF.unparen(x)) or JF.text(x) for x in a.get("expressions", [])], [q.get("raw") for q in a.get("quasis", [])]
+            if a.get("type") == "CallExpression" and len(chain(a)) == 1 and chain(a)[0] in F.decls and len(args(a)) >= 2 and all(F.params(F.decls[chain(a)[0]])):
+                # `formatLocation(file, line, column)`: plain parameters stand for the arguments
+                h_ = F.decls[chain(a)[0]]
+                rs_ = [x for x in jsast.walk(h_) if x.get("type") == "ReturnStatement" and F.enclosing_fn(x) is h_]
+                tl = JF.unparen(rs_[0]["argument"]) if len(rs_) == 1 and rs_[0].get("argument") is not None else {}
+                ps_ = F.params(h_)
+                if tl.get("type") == "TemplateLiteral" and len(ps_) == len(args(a)):
+                    ren = {p_: (jsast.ident_name(JF.unparen(x)) or JF.text(x)) for p_, x in zip(ps_, args(a))}
+                    old_ = JF.REN[0]
+                    JF.REN[0] = dict(old_, **ren)
+                    try:
+                        return [JF.text(x) for x in tl.get("expressions", [])], [q.get("raw") for q in tl.get("quasis", [])]
+                    finally:
+                        JF.REN[0] = old_
             if a.get("type") == "CallExpression" and len(chain(a)) == 1 and chain(a)[0] in F.decls and len(args(a)) == 1:
                 h_ = F.decls[chain(a)[0]]
                 prm = (h_.get("function", h_).get("params") or [None])[0]
